@@ -185,7 +185,7 @@ Proof. split; [exact firstn_choose_ok | vm_compute; repeat split; reflexivity]. 
 (* non-vacuity: promotion, rungs_and_last, two brackets' worth of levels; trial 0 is paused at 1,
    resumed without checkpointing (re-reports level 1), trial 1 fails, trial 0 completes *)
 Definition ex_cfg := {| rung_levels := [1; 3]; max_t := 9; pol := RungsAndLast; myopic := false;
-                        sty := Promotion; maximize := true |}.
+                        sty := Promotion; maximize := true; reward_const := 1 |}.
 Definition ex_hist := [Start 0 0%nat; Start 1 1%nat; Report 0 1 (1 # 4) true; Report 1 1 (1 # 2) true;
                        Resume 0 0%nat; Report 0 1 (1 # 8) true; Report 0 2 (3 # 8) true; Fail 1;
                        Complete 0 2 (3 # 8)].
